@@ -109,9 +109,9 @@ Print Assumptions c19_scan_no_duplicates.
 (* three containers: a single-reference slice, a multi-reference slice with an unmapped record,
    an unmapped slice *)
 Definition c19_example_file : list container :=
-  [ written 300 20 500 180 320 [mkrec 0 (Some 0) 5 9; mkrec 1 (Some 0) 7 30];
-    written 820 22 610 190 420 [mkrec 2 (Some 0) 40 44; mkrec 3 (Some 2) 3 12; mkrec 4 (Some 2) 8 10; mkrec 5 None 0 0];
-    written 1452 18 400 170 230 [mkrec 6 None 0 0] ].
+  [ written 300 20 500 180 320 [mkrec 0 (Some 0) 5 9 false; mkrec 1 (Some 0) 7 30 false];
+    written 820 22 610 190 420 [mkrec 2 (Some 0) 40 44 false; mkrec 3 (Some 2) 3 12 false; mkrec 4 (Some 2) 8 10 false; mkrec 5 None 0 0 true];
+    written 1452 18 400 170 230 [mkrec 6 None 0 0 true] ].
 
 Example c19_example_ok : file_ok 300 c19_example_file.
 Proof.
